@@ -198,10 +198,22 @@ def _worker(job):
     modname = 'xdverif_c16_m%d' % idx
     path = os.path.join(d, modname + '.py')
     # how the file is saved: plain UTF-8, with a byte-order mark (editors on Windows write it), with CRLF line ends, with a coding cookie
-    saved = ['plain', 'plain', 'bom', 'crlf', 'bom+crlf', 'cookie'][idx % 6]
+    # ... or in another encoding that the file declares (PEP 263), with text in a doctest that is spelled differently in it
+    saved = ['plain', 'plain', 'bom', 'crlf', 'bom+crlf', 'cookie', 'latin-1', 'cp1252', 'iso-8859-15+crlf'][idx % 9]
+    codec = 'utf-8-sig' if 'bom' in saved else 'utf-8'
+    if saved.split('+')[0] in ('latin-1', 'cp1252', 'iso-8859-15'):
+        codec = saved.split('+')[0]
+        word = {'latin-1': 'caf\xe9 \xfc\xdf', 'cp1252': '\u20ac5 \u201cquoted\u201d', 'iso-8859-15': '\u20ac5 \u0153uvre'}[codec]
+        extra = 'def encoded_text_%d():\n    \"\"\"\n    >>> print(%r)\n    %s\n    \"\"\"\n' % (idx, word, word)
+        try:
+            ('# -*- coding: %s -*-\n' % codec + src + extra).encode(codec)
+            src = '# -*- coding: %s -*-\n' % codec + src + '\n' + extra
+        except UnicodeEncodeError:
+            # (the generated identifiers hold a letter outside that code page: saved as UTF-8 with its cookie instead)
+            codec, saved = 'utf-8', 'cookie'
     if saved == 'cookie':
         src = '# -*- coding: utf-8 -*-\n' + src
-    with open(path, 'w', encoding='utf-8-sig' if 'bom' in saved else 'utf-8', newline='\r\n' if 'crlf' in saved else None) as f:
+    with open(path, 'w', encoding=codec, newline='\r\n' if 'crlf' in saved else None) as f:
         f.write(src)
     problems = []
     sys.path.insert(0, d)
